@@ -24,11 +24,11 @@ type ProgSpec struct {
 	Tags         []string          `json:"tags_used"`
 }
 
-var textPool = []string{"A", " b ", "\n", "\n  ", "<p>", "</p> <b>", "ü€", "x&y", "  \n\n", "'q'", "T\n", "\t", "end.", "<i> </i>", "0"}
+var textPool = []string{"A", " b ", "\n", "\n  ", "<p>", "</p> <b>", "ü€", "x&y", "  \n\n", "'q'", "T\n", "\t", "end.", "<i> </i>", "0", "\n\n", "\n\n\nX", "\n \t"}
 
 var allConstructs = []string{"text", "var", "y", "vsim", "if", "ifequal", "ifnotequal", "for", "with", "set", "macro", "import",
 	"include", "lazyinclude", "cycle", "ifchanged", "filtertag", "spaceless", "autoescape", "firstof", "widthratio",
-	"templatetag", "lorem", "now", "comment", "verbatim", "ssi", "ssiplain", "failexpr", "poly", "lazyvar", "big", "recmacro", "listlit"}
+	"templatetag", "lorem", "now", "comment", "verbatim", "ssi", "ssiplain", "failexpr", "poly", "lazyvar", "big", "recmacro", "listlit", "ctxfunc"}
 
 // filters with the argument forms the generator writes for them
 var filterForms = map[string][]string{
@@ -124,6 +124,11 @@ func (p *progGen) boolE() string {
 	return p.pick(opts)
 }
 
+// intE2: a simple integer operand (no spaces), usable as a call argument
+func (p *progGen) intE2() string {
+	return p.pick([]string{"n1", "3", "st.Age", "7"})
+}
+
 func (p *progGen) anyE() string {
 	switch p.g.Draw(4) {
 	case 0:
@@ -211,6 +216,20 @@ func (p *progGen) node(b *strings.Builder, depth int) {
 			b.WriteString("{% vsim %}")
 		} else {
 			fmt.Fprintf(b, "{{ %s|vsim }}", p.strE())
+		}
+	case "ctxfunc":
+		// context functions that take the implicit *ExecutionContext, with various arities
+		switch p.g.Draw(5) {
+		case 0:
+			b.WriteString("{{ fnc0() }}")
+		case 1:
+			fmt.Fprintf(b, "{{ fnc1(%s) }}", p.strE())
+		case 2:
+			fmt.Fprintf(b, "{{ fnc3(%s, %s, 3) }}", p.strE(), p.intE2())
+		case 3:
+			fmt.Fprintf(b, "{{ fnc5(1, %s, 3, %s, 5) }}", p.strE(), p.strE())
+		default:
+			fmt.Fprintf(b, "{{ fnv(%s, 2, %s) }}", p.strE(), p.strE())
 		}
 	case "listlit":
 		// literal lists: iterated plain, sorted and reversed, also through a variable
@@ -684,6 +703,21 @@ func (w *World) BuildCtx(d CtxDesc) pongo2.Context {
 		"lz1":       "inc1.tpl",
 		"lzmissing": "nope.tpl",
 		"fn_add":    func(a, b int) int { return a + b },
+		"fnc0":      func(ec *pongo2.ExecutionContext) string { return fmt.Sprintf("c0[%v]", ec != nil) },
+		"fnc1":      func(ec *pongo2.ExecutionContext, a *pongo2.Value) string { return "c1[" + a.String() + "]" },
+		"fnc3": func(ec *pongo2.ExecutionContext, a, b, c *pongo2.Value) string {
+			return "c3[" + a.String() + "," + b.String() + "," + c.String() + "]"
+		},
+		"fnc5": func(ec *pongo2.ExecutionContext, a, b, c, d, e *pongo2.Value) string {
+			return "c5[" + a.String() + b.String() + c.String() + d.String() + e.String() + "]"
+		},
+		"fnv": func(ec *pongo2.ExecutionContext, args ...*pongo2.Value) string {
+			s := "cv["
+			for _, a := range args {
+				s += a.String() + ";"
+			}
+			return s + "]"
+		},
 		"fn_maybe": func() (string, error) {
 			if d.MaybeFail {
 				return "", fmt.Errorf("fn_maybe failed (context says so)")
